@@ -98,6 +98,12 @@ def fault_cases(R, n):
             g.emergency_halt("first attempt", reset1)
         except DeviceError:
             first = "DeviceError"
+        except Exception as e:  # noqa
+            R.evaluations += 1
+            R.fail({"prepare": prep, "fault_at_statement": k, "reset": [reset1, reset2]},
+                   f"emergency_halt() raised {type(e).__name__} (the only fault injected is a DeviceError of the writer)",
+                   tag="shutdown-rejected")
+            continue
         resume = r.random() < 0.5
         if resume:
             try:
